@@ -283,6 +283,9 @@ class Program:
 
             from .normalize import canonicalise_required_kwargs
 
+            from .normalize import inline_new_constants
+
+            inline_new_constants(tree, modname)
             n_kw = canonicalise_required_kwargs(tree, getattr(self, "req_sigs", {}))
             n_ds = desugar(tree)
             from .normalize import expand_dispatch
